@@ -63,21 +63,24 @@ Definition vr_dollar_hex : variant :=
      vr_uuid_canon := true; vr_year_pad := true; vr_sel_upper := true; vr_ref_flip_unreg := true;
      vr_parse_guard_custom := true; vr_ext_scan_guard := true; vr_detect_default := true; vr_d2s_ext_guard := true;
      vr_toplevel_needs_slot := true; vr_ext_nonempty := true; vr_marking_flag := true;
-     vr_flag_from_stored := true; vr_sock_int := true; vr_positional_none := true; vr_bundle20_recheck := true; vr_md20_default_ms := true; vr_ext_order_sorted := true |}.
+     vr_flag_from_stored := true; vr_sock_int := true; vr_positional_none := true; vr_bundle20_recheck := true; vr_md20_default_ms := true; vr_ext_order_sorted := true;
+     vr_b64_strict := true; vr_detect_notype_parse := true |}.
 
 Definition vr_uuid_lax : variant :=
   {| vr_hex_z := true; vr_key_z := true; vr_sel_z := true; vr_hash_z := true; vr_interop_z := true;
      vr_uuid_canon := false; vr_year_pad := true; vr_sel_upper := true; vr_ref_flip_unreg := true;
      vr_parse_guard_custom := true; vr_ext_scan_guard := true; vr_detect_default := true; vr_d2s_ext_guard := true;
      vr_toplevel_needs_slot := true; vr_ext_nonempty := true; vr_marking_flag := true;
-     vr_flag_from_stored := true; vr_sock_int := true; vr_positional_none := true; vr_bundle20_recheck := true; vr_md20_default_ms := true; vr_ext_order_sorted := true |}.
+     vr_flag_from_stored := true; vr_sock_int := true; vr_positional_none := true; vr_bundle20_recheck := true; vr_md20_default_ms := true; vr_ext_order_sorted := true;
+     vr_b64_strict := true; vr_detect_notype_parse := true |}.
 
 Definition vr_ext_empty : variant :=
   {| vr_hex_z := true; vr_key_z := true; vr_sel_z := true; vr_hash_z := true; vr_interop_z := true;
      vr_uuid_canon := true; vr_year_pad := true; vr_sel_upper := true; vr_ref_flip_unreg := true;
      vr_parse_guard_custom := true; vr_ext_scan_guard := true; vr_detect_default := true; vr_d2s_ext_guard := true;
      vr_toplevel_needs_slot := true; vr_ext_nonempty := false; vr_marking_flag := true;
-     vr_flag_from_stored := true; vr_sock_int := true; vr_positional_none := true; vr_bundle20_recheck := true; vr_md20_default_ms := true; vr_ext_order_sorted := true |}.
+     vr_flag_from_stored := true; vr_sock_int := true; vr_positional_none := true; vr_bundle20_recheck := true; vr_md20_default_ms := true; vr_ext_order_sorted := true;
+     vr_b64_strict := true; vr_detect_notype_parse := true |}.
 
 (* a 2.0 kill-chain phase / 2.1 external reference are enough: leaf classes present in every table *)
 Definition req_hex : request :=
